@@ -153,6 +153,9 @@ func init() {
 		if env == nil {
 			return
 		}
+		if point == "watch.process" && b == 0 {
+			env.countFiller(env.Sched.ProcNameFor(point))
+		}
 		if name, ok := LoggedHooks[point]; ok && env.Rec.On {
 			env.Rec.Log(gate.Event{"e": name, "p": env.Sched.ProcNameFor(point), "a": gate.Clip(a), "b": gate.Clip(b)})
 		}
@@ -162,6 +165,8 @@ func init() {
 
 // Env is one backend instance over one engine behind the gate wrapper.
 type Env struct {
+	fmu     sync.Mutex
+	fillers map[string]int // filler (empty) batches consumed, per forwarding-loop process
 	Eng    *Engine
 	Store  *gate.Store
 	Sched  *gate.Sched
@@ -180,7 +185,7 @@ type Options struct {
 	Engine     *Engine
 	KeyNames   []string // relative names, appended to the prefix
 	Gated      bool
-	Park       func(label string) bool
+	Park       func(proc, label string, a, b uint64) bool
 	Base       uint64
 	CacheSize  int
 	NoTTL      bool
@@ -226,6 +231,22 @@ func NewEnv(o Options) *Env {
 		}
 	}
 	return env
+}
+
+func (e *Env) countFiller(proc string) {
+	e.fmu.Lock()
+	if e.fillers == nil {
+		e.fillers = map[string]int{}
+	}
+	e.fillers[proc]++
+	e.fmu.Unlock()
+}
+
+// FillersPassed returns how many empty batches the named forwarding loop has consumed.
+func (e *Env) FillersPassed(proc string) int {
+	e.fmu.Lock()
+	defer e.fmu.Unlock()
+	return e.fillers[proc]
 }
 
 // Retire ends the background goroutines of this environment's backend.
